@@ -39,7 +39,27 @@ UNKNOWN = ("Unk", "zz_q")
 MEMBER_NAMES = G.OBJ_NAMES
 SLUG_OUTER = "outer-class-scope"
 SLUG_ORDER = "definition-order"
-KNOWN_STEERING = (SLUG_OUTER, SLUG_ORDER)
+SLUG_PKG = "parent-package-scope"
+KNOWN_STEERING = (SLUG_OUTER, SLUG_ORDER, SLUG_PKG)
+
+
+def is_scope_class_name(n: str) -> bool:
+    return len(n) > 3 and n[0] == "S" and n[1].isdigit() and "_" in n
+
+
+def inherited_attrs(chain, mod_ns) -> set:
+    """Names defined by the (generated) base classes of the enclosing classes, looked up through the module namespace."""
+    out: set = set()
+    for c in chain:
+        todo = list(c.get("bases", ()))
+        depth = 0
+        while todo and depth < 4:
+            node = (mod_ns.get(todo.pop()) or {}).get("node")
+            depth += 1
+            if node is not None and node.get("t") == "class":
+                out |= set(_class_attrs(node))
+                todo += list(node.get("bases", ()))
+    return out
 
 
 def is_site_name(n: str) -> bool:
@@ -75,7 +95,7 @@ def python_lookup(name, chain, pos, mod_ns_point, final: bool, mod_ns_final):
     return None
 
 
-def griffe_model_lookup(name, chain, mod_ns_final):
+def griffe_model_lookup(name, chain, mod_ns_final, pkg_scopes=()):
     """Model of Object.resolve on final members (documentation of the known findings; never the oracle)."""
     for d in range(len(chain) - 1, -1, -1):
         hit = last_binding(chain[d]["body"], name)
@@ -85,7 +105,23 @@ def griffe_model_lookup(name, chain, mod_ns_final):
             return ("parent-name", d - 1)
     if name in mod_ns_final:
         return ("module", mod_ns_final[name])
+    # Object.resolve keeps walking: from the module into its parent package(s) (their members and sub-modules)
+    for anc_mod, anc_ns, anc_children in pkg_scopes:
+        if name in anc_ns:
+            return ("package", anc_mod, anc_ns[name])
+        if name in anc_children:
+            return ("package-child", anc_mod)
     return None
+
+
+def package_scopes(case, full_sim, path) -> list:
+    """[(module dict, final namespace, sub-module names)] of the ancestor packages of module `path`, nearest first."""
+    by_path = {m["path"]: m for m in case["mods"]}
+    out = []
+    for anc in G.ancestors(path):
+        ns = full_sim[anc]["ns"] if anc in full_sim else {}
+        out.append((by_path[anc], ns, {G.base_name(c) for c in G.children(case, anc)}))
+    return out
 
 
 def binding_path(mod, info, name) -> str:
@@ -114,6 +150,10 @@ def _lookup_path(found, chain, mod, name):
         return ".".join([base, *[c["name"] for c in chain[: found[1] + 1]], name])
     if found[0] == "parent-name":
         return ".".join([base, *[c["name"] for c in chain[: found[1] + 1]]])
+    if found[0] == "package":
+        return binding_path(found[1], found[2], name)
+    if found[0] == "package-child":
+        return "$TOP" + ("." + found[1]["path"] if found[1]["path"] else "") + "." + name
     return binding_path(mod, found[1], name)
 
 
@@ -123,6 +163,8 @@ def label_of(py, gr, chain, mod, name) -> str:
         return "agree"
     if gr is not None and (gr[0] == "parent-name" or (gr[0] == "class" and gr[1] < len(chain) - 1)):
         return SLUG_OUTER
+    if gr is not None and gr[0] in ("package", "package-child"):
+        return SLUG_PKG
     return SLUG_ORDER
 
 
@@ -160,9 +202,11 @@ def site_info(case) -> dict:
     sim: dict = {}
     paths = {m["path"] for m in case["mods"]}
     pkgs = {m["path"] for m in case["mods"] if m["pkg"]}
+    full = G.simulate(case)
     for mod in case["mods"]:
         final = G._sim_module(case, mod, sim, paths, pkgs)
         sim[mod["path"]] = final
+        scopes = package_scopes(case, full, mod["path"])
 
         def walk(body, chain, top_index):
             for j, st_ in enumerate(body):
@@ -171,10 +215,13 @@ def site_info(case) -> dict:
                     # module-level view at the position of the outermost statement
                     point = G._sim_module(case, {**mod, "body": mod["body"][:idx]}, sim, paths, pkgs)["ns"]
                     for site in st_["sites"]:
+                        if site["what"] == "strcall":
+                            out.setdefault(st_["name"], {})[site["what"]] = {"label": "agree", "justified": []}
+                            continue
                         root = site["expr"].split(".")[0]
                         lazy = site["what"] == "str"
                         py = python_lookup(root, chain, j, point, lazy, final["ns"])
-                        gr = griffe_model_lookup(root, chain, final["ns"])
+                        gr = griffe_model_lookup(root, chain, final["ns"], scopes)
                         out.setdefault(st_["name"], {})[site["what"]] = {
                             "label": label_of(py, gr, chain, mod, root),
                             "justified": _justified(case, mod, final, chain, root),
@@ -288,13 +335,22 @@ def cases(draw, avoid: frozenset = frozenset(), on_excluded=None, max_mods: int 
     paths = {m["path"] for m in case["mods"]}
     pkgs = {m["path"] for m in case["mods"] if m["pkg"]}
     sim: dict = {}
+    presim = G.simulate(case)  # the pool names of every module are final here (enrichment only adds fresh names)
     for i, mod in enumerate(case["mods"]):
         serial = [100]
         body = mod["body"]
+        scopes = package_scopes(case, presim, mod["path"])
         # ---- phase 1: scope classes (fresh module-level names, members from the shared pool)
         for k in range(draw(st.integers(0, 2))):
             at = draw(st.integers(0, len(body)))
-            body.insert(at, {"t": "class", "name": f"S{i}_{k}", "serial": 0, "body": _members(draw, 1, serial, f"S{i}_{k}")})
+            cls = {"t": "class", "name": f"S{i}_{k}", "serial": 0, "body": _members(draw, 1, serial, f"S{i}_{k}")}
+            # inheritance: the base is a scope class visible here (defined earlier in this module, or imported);
+            # Python never looks into a base class for a bare name used in the subclass body
+            point0 = G._sim_module(case, {**mod, "body": body[:at]}, sim, paths, pkgs)["ns"]
+            base_cands = sorted(n for n, inf in point0.items() if is_scope_class_name(n) and inf.get("kind") == "class" and inf.get("node") is not None)
+            if base_cands and draw(st.integers(0, 2)) > 0:
+                cls["bases"] = [draw(st.sampled_from(base_cands))]
+            body.insert(at, cls)
         final = G._sim_module(case, mod, sim, paths, pkgs)
         tolerated = G.tolerated_names(case, {**sim, mod["path"]: final}, mod["path"])
         counter = [0]
@@ -307,7 +363,7 @@ def cases(draw, avoid: frozenset = frozenset(), on_excluded=None, max_mods: int 
                 pos = draw(st.integers(0, len(scope_body)))
                 idx = pos if not chain else top_index
                 point = G._sim_module(case, {**mod, "body": body[:idx]}, sim, paths, pkgs)["ns"]
-                what = draw(st.sampled_from(("ann", "val", "str", "func", "base", "deco", "ann", "str")))
+                what = draw(st.sampled_from(("ann", "val", "str", "func", "base", "deco", "ann", "str", "strcall")))
                 counter[0] += 1
                 rid = f"r{i}_{counter[0]}"
 
@@ -317,8 +373,12 @@ def cases(draw, avoid: frozenset = frozenset(), on_excluded=None, max_mods: int 
                     for c in chain:
                         names |= set(_class_attrs(c))
                         names.add(c["name"])
+                    inherited = inherited_attrs(chain, final["ns"])
+                    names |= inherited
                     if lazy:
                         names |= set(UNKNOWN)
+                        for _, anc_ns, anc_children in scopes:
+                            names |= {x for x in anc_ns if x not in ("$TOP", "__all__")} | set(anc_children)
                     names -= tolerated
                     names.discard("__all__")
                     names = {x for x in names if not is_site_name(x)}
@@ -327,7 +387,7 @@ def cases(draw, avoid: frozenset = frozenset(), on_excluded=None, max_mods: int 
                         py = python_lookup(n, chain, pos, point, lazy, final["ns"])
                         if py is None and not lazy:
                             continue  # NameError at import time
-                        gr = griffe_model_lookup(n, chain, final["ns"])
+                        gr = griffe_model_lookup(n, chain, final["ns"], scopes)
                         lab = label_of(py, gr, chain, mod, n)
                         if lab in avoid:
                             if on_excluded is not None:
@@ -360,6 +420,10 @@ def cases(draw, avoid: frozenset = frozenset(), on_excluded=None, max_mods: int 
                     pool = next(groups[g] for g in order if g in groups)
                     if selfnamed and draw(st.integers(0, 2)) == 0:
                         pool = selfnamed
+                    # names that a base class of an enclosing class defines and the class body itself does not
+                    inh = [c for c in cands if c[0] in inherited and not (chain and last_binding(chain[-1]["body"], c[0]))]
+                    if inh and draw(st.integers(0, 2)) == 0:
+                        pool = inh
                     if want is not None:
                         # kind-restricted sites (bases, decorators): candidates of that kind, else ones a chain can start at
                         def rk(c):
@@ -410,6 +474,8 @@ def cases(draw, avoid: frozenset = frozenset(), on_excluded=None, max_mods: int 
                             feats.append("import-as" if stmt.get("as") else "import-dotted")
                         if info.get("depth", 0) >= 2:
                             feats.append("re-export-chain")
+                    if n in inherited and not (chain and last_binding(chain[-1]["body"], n)):
+                        feats.append("inherited-name")
                     if n in own_names and py is not None and py[0] == "module":
                         feats.append("module-own-name" if n == G.base_name(mod["path"]) else "parent-package-name")
                     if n == "$TOP":
@@ -439,7 +505,25 @@ def cases(draw, avoid: frozenset = frozenset(), on_excluded=None, max_mods: int 
                     return text, lab, feats
 
                 stmt = None
-                if what in ("ann", "val", "str"):
+                if what == "strcall":
+                    # an attribute chain hanging off a call or subscript result, in a string annotation (never evaluated):
+                    # its segments have no static binding, whatever the enclosing scopes bind under those names
+                    scope_names = set(final["ns"]) | inherited_attrs(chain, final["ns"])
+                    for c in chain:
+                        scope_names |= set(_class_attrs(c))
+                    scope_names = sorted(x for x in scope_names if x not in ("$TOP", "__all__") and not is_site_name(x))
+                    roots = sorted(x for x in set(scope_names) | set(UNKNOWN) | set(BUILTINS))
+                    root = draw(st.sampled_from(roots))
+                    attrs = draw(st.lists(st.sampled_from(scope_names or list(UNKNOWN)), min_size=1, max_size=2))
+                    form = draw(st.sampled_from(("call", "call-arg", "subscript")))
+                    arg = draw(st.sampled_from(scope_names)) if scope_names and form == "call-arg" else ""
+                    head = f"{root}[0]" if form == "subscript" else f"{root}({arg})"
+                    suffix = ".".join(attrs)
+                    text = f"{head}.{suffix}"
+                    stmt = {"t": "val", "name": rid, "ann": repr(text), "value": "0",
+                            "sites": [{"what": "strcall", "expr": text, "suffix": suffix, "label": "agree",
+                                       "features": ["subscript-root" if form == "subscript" else "call-root"]}]}
+                elif what in ("ann", "val", "str"):
                     got = pick(lazy=(what == "str"))
                     if got:
                         text, lab, feats = got
